@@ -43,6 +43,7 @@ type c09Scn struct {
 	Limit      int             `json:"limit"`
 	Exp        []c09Res        `json:"exp"`
 	ExpNoLimit []c09Res        `json:"expNoLimit"`
+	Trickle    bool            `json:"trickle,omitempty"` // stall scenarios: the rest of the stream arrives one byte per 100 ms
 }
 
 func c09p(i int) *int { return &i }
@@ -61,6 +62,10 @@ type c09Reader struct {
 	cyc      []int
 	cyci     int
 	reads    int
+	// trickle: once data is used up the peer is not silent but slow - one more byte every trickleEvery
+	trickle      []byte
+	trickleEvery time.Duration
+	tpos         int
 }
 
 func (r *c09Reader) Read(p []byte) (int, error) {
@@ -107,6 +112,16 @@ func (r *c09Reader) Read(p []byte) (int, error) {
 	}
 	if r.end == "eof" {
 		return 0, io.EOF
+	}
+	if r.tpos < len(r.trickle) {
+		select {
+		case <-r.release:
+			return 0, errors.New("verif: released trickling reader")
+		case <-time.After(r.trickleEvery):
+		}
+		p[0] = r.trickle[r.tpos]
+		r.tpos++
+		return 1, nil
 	}
 	<-r.release
 	return 0, errors.New("verif: released stalled reader")
@@ -221,6 +236,9 @@ func c09Execute(variant string, s *c09Scn, stream []byte, bodies [][]byte, useSc
 	rd := &c09Reader{data: stream[:s.Avail], end: s.End, release: make(chan struct{}), scriptOK: true, cyc: cyc}
 	if useScript {
 		rd.chunks = c09Chunks(s)
+	}
+	if s.Trickle {
+		rd.trickle, rd.trickleEvery = stream[s.Avail:], 100*time.Millisecond
 	}
 	pipe := strings.HasSuffix(variant, "pipe")
 	if pipe {
@@ -729,4 +747,72 @@ func TestVerifC09Sweep(t *testing.T) {
 		}
 	})
 	out.Put(map[string]any{"summary": true, "scenarios": len(sizes), "evaluations": evals})
+}
+
+
+// TestVerifC09Trickle: "a stalled peer yields a timeout error within the configured period" - the period is a
+// budget for the whole message, so a peer that is not silent but too slow (one byte every 100 ms, period 150 ms,
+// at least 60 bytes missing) is stalled in the sense of the statement: the call must end with the timeout error
+// within the period plus slack, after the messages that were complete.  How many bytes the error reports depends
+// on timing and is only bounded from below.
+func TestVerifC09Trickle(t *testing.T) {
+	out, err := verifutil.NewOut(verifutil.Env("VERIF_OUT", "trickle.ndjson"))
+	if err != nil {
+		t.Fatal(err)
+	}
+	defer out.Close()
+	type scn struct {
+		lens  []int
+		avail int
+	}
+	var scns []scn
+	for _, pre := range [][]int{{}, {5}} {
+		off := 0
+		for _, n := range pre {
+			off += 4 + n
+		}
+		lens := append(append([]int{}, pre...), 70)
+		for _, cut := range []int{0, 1, 3, 4, 5, 9} { // bytes of the last message (prefix + body) that arrive at once
+			scns = append(scns, scn{lens, off + cut})
+		}
+	}
+	var evals int64
+	verifutil.ParallelFor(len(scns), len(scns), func(i int) {
+		sc := scns[i]
+		stream, bodies := c09Stream(sc.lens)
+		for _, variant := range []string{"raw", "msg"} {
+			s := &c09Scn{Lens: sc.lens, Avail: sc.avail, End: "stall", Limit: 16 * 1024 * 1024, Trickle: true}
+			bad := func(run c09Run) string {
+				n := len(sc.lens) - 1
+				if len(run.Obs) != n+1 {
+					return fmt.Sprintf("%d results, %d complete messages and a timeout required", len(run.Obs), n)
+				}
+				for k := 0; k < n; k++ {
+					if run.Obs[k].K != "Msg" || *run.Obs[k].I != k+1 {
+						return fmt.Sprintf("result %d is not message %d", k+1, k+1)
+					}
+				}
+				last := run.Obs[n]
+				if last.K != "Timeout" {
+					return "the call on the slow message ended with " + last.K + ", a timeout is required"
+				}
+				if run.Elapsed > c09StallTimeout+3*time.Second {
+					return fmt.Sprintf("timeout reported after %v (configured %v)", run.Elapsed, c09StallTimeout)
+				}
+				return ""
+			}
+			run := c09Execute(variant, s, stream, bodies, false, nil)
+			atomic.AddInt64(&evals, 1)
+			if why := bad(run); why != "" {
+				repro := 1
+				for k := 0; k < 2; k++ {
+					if bad(c09Execute(variant, s, stream, bodies, false, nil)) != "" {
+						repro++
+					}
+				}
+				out.Put(c09Mismatch{Variant: variant, Scn: s, Obs: run.Obs, ScriptOK: true, Note: "slow peer: " + why, Repro: repro})
+			}
+		}
+	})
+	out.Put(map[string]any{"summary": true, "scenarios": len(scns), "evaluations": evals})
 }
